@@ -144,54 +144,28 @@ func sentinel(v reflect.Value) {
 	}
 }
 
-// readUnpack unpacks the setting "v" of c into a struct field of the given
-// target and variant and returns the stored value with pointers removed.
-func readUnpack(c *ucfg.Config, t *tgtDesc, variant string, opts []ucfg.Option) (reflect.Value, error, error) {
-	ht, ok := holders[t.name+"/"+variant]
-	if !ok {
-		return reflect.Value{}, nil, fmt.Errorf("harness: no variant %q of target %s", variant, t.name)
-	}
-	h := reflect.New(ht)
-	f := h.Elem().Field(0)
-	switch variant {
-	case "set":
-		sentinel(f)
-	case "ptr-set":
-		p := reflect.New(f.Type().Elem())
-		sentinel(p.Elem())
-		f.Set(p)
-	}
-	err := c.Unpack(h.Interface(), opts...)
-	if err != nil {
-		return reflect.Value{}, err, nil
-	}
-	for f.Kind() == reflect.Ptr {
-		if f.IsNil() {
-			return reflect.Value{}, nil, fmt.Errorf("Unpack returned nil but left the pointer target nil")
-		}
-		f = f.Elem()
-	}
-	return f, nil, nil
-}
-
 // readGetter reads the setting "v" through the typed getter that belongs to
 // the target kind.
-func readGetter(c *ucfg.Config, t *tgtDesc, opts []ucfg.Option) (reflect.Value, error, error) {
+func readGetter(c *ucfg.Config, t *tgtDesc, idx0 bool, opts []ucfg.Option) (reflect.Value, error, error) {
+	idx := -1
+	if idx0 {
+		idx = 0
+	}
 	switch t.name {
 	case "bool":
-		b, err := c.Bool("v", -1, opts...)
+		b, err := c.Bool("v", idx, opts...)
 		return reflect.ValueOf(b), err, nil
 	case "int64":
-		i, err := c.Int("v", -1, opts...)
+		i, err := c.Int("v", idx, opts...)
 		return reflect.ValueOf(i), err, nil
 	case "uint64":
-		u, err := c.Uint("v", -1, opts...)
+		u, err := c.Uint("v", idx, opts...)
 		return reflect.ValueOf(u), err, nil
 	case "float64":
-		f, err := c.Float("v", -1, opts...)
+		f, err := c.Float("v", idx, opts...)
 		return reflect.ValueOf(f), err, nil
 	case "string":
-		s, err := c.String("v", -1, opts...)
+		s, err := c.String("v", idx, opts...)
 		return reflect.ValueOf(s), err, nil
 	}
 	return reflect.Value{}, nil, fmt.Errorf("harness: no typed getter for target %s", t.name)
